@@ -76,7 +76,7 @@ PKG_SCOPE = "model files of the package are hand-written transcriptions tied by 
 
 prop(
     "C03",
-    ["LolHtml.Thm.C03_Sim", "LolHtml.Thm.C03_Ref"],
+    ["LolHtml.Thm.C03_Sim", "LolHtml.Thm.C03_Ref", "LolHtml.Thm.C03_Strict", "LolHtml.Thm.C03_Trace"],
     [{"lane": "hash", "n_quick": 3000, "n_thorough": 40000},
      {"lane": "lex", "n_quick": 3000, "n_thorough": 100000},
      {"lane": "h5", "n_quick": 3000, "n_thorough": 60000, "impl_only": True}],
@@ -84,6 +84,7 @@ prop(
     + LEX_RULE,
     ["the real WHATWG tree builder is NOT modelled: the expected namespaces / text types are the author's reading of WHATWG 13.2.6, validated on witnesses against html5ever (lane nsprobe), not proved",
      "Ref tables (lean/LolHtml/Ref/Tags.lean) are hand-reviewed against the standard",
+     "C03_parser_sim_trace is for pure lexer-mode runs (mixed scanner/lexer runs split the simulator step across the two machines: C06) and excludes runs dying in the three debug assertions of handle_tree_builder_feedback; the strict theorems need the table side-condition EmitsChecked (`?` on emit_tag / finish_tag_name), decided on the generated table",
      MODEL_SCOPE],
     level_text=("Lean 4 theorems over the translated tag tables and the simulator model: generated tables = reviewed reference "
                 "(C03_tags_match_reference, kernel decide), every table hash is the hash of its name and hash equality is name "
@@ -92,7 +93,15 @@ prop(
                 "the tokenizer table regenerated from the DSL resolves, for every state, closing-quote value, last/non-last chunk and all 257 input classes, to the same arm (calls, ? flags, condition, target, look-ahead sequences, enter actions) as a reference table transcribed from WHATWG 13.2.5 with nine documented shape deviations (C03_table_matches_reference, 24 kernel decide steps + a soundness lemma; insensitive to arm order / #[inline] / numbering); simulator invariants for all tag sequences (stack never empty, cdata flag = foreign namespace, strict run = "
                 "non-strict run when accepted), and the expected namespace at every tag of every derivation of a well-nested "
                 "foreign-content grammar (C03_foreign_grammar, C03_foreign_doc), with proved counter-examples for the grammar's "
-                "side conditions. PARTIAL: equality with a real tree builder on tag soup is not a theorem."),
+                "side conditions. At stream level (whole model: parser + dispatcher + transform stream + rewriter, any controller, "
+                "any chunking): a strict run in which every call succeeds equals the non-strict run — results, sink log, "
+                "dispatcher and controller state (C03_strict_eq_nonstrict_stream); a strict call that fails with ParsingAmbiguity "
+                "does so exactly because the guard refuses a text-switching start tag in select / template-in-select / frameset "
+                "context, otherwise the same call fails identically in non-strict mode (C03_strict_fails_only_on_guard), and a "
+                "non-strict stream never reports ambiguity (C03_nonstrict_no_ambiguity); in lexer mode the parser's simulator is "
+                "Sim.run over the emitted lexemes' events and every start tag is stamped with its trace entry's namespace "
+                "(C03_parser_sim_trace, C03_lexer_stamps_expected carries the grammar theorem to the parser). "
+                "PARTIAL: equality with a real tree builder on tag soup is not a theorem."),
     level_note=("Trusted: Lean kernel; translators; the reviewed Ref tables; the model of the simulator (tied by lanes lex/hash). "
                 "Not covered: the 23 insertion modes of the real tree builder (differential lane h5 against html5ever only); a "
                 "bisimulation 'equal resolution => equal runs' and formal lemmas for the nine shape deviations of the reference table."),
